@@ -197,15 +197,17 @@ theorem bin_agrees_with_C16 (r : Record) :
     Hts.Model.Coord.recordBin (unmapped r) (mateUnmapped r) r.pos (r.cigar.map coordOp) = some (recordBin r) :=
   recordBin_agree r
 
-/-- hence, by C16's `bin_spec`: for a record at position `p ≥ 0` whose alignment ends at `e` with `p < e ≤ 2^29`, the
-bin bytes hold the specification's `reg2bin(p, e)` -/
+/-- hence, by C16's `bin_spec`: for a record at position `p` (`0 ≤ p < 2^29`) whose alignment ends at `e` with
+`p ≤ e ≤ 2^29`, the bin bytes hold the specification's `reg2bin(p, e)` — of one base when the alignment consumes no
+reference (`e = p`) -/
 theorem bin_is_reg2bin (r : Record) (p e : Nat) (hp : r.pos = (p : Int)) (he : recordEnd r = (e : Int))
-    (h1 : p < e) (h2 : e ≤ 2 ^ 29) : recordBin r = Hts.Spec.Coord.reg2bin p e 14 5 := by
+    (h1 : p ≤ e) (h2 : e ≤ 2 ^ 29) (h3 : p < 2 ^ 29) :
+    recordBin r = Hts.Spec.Coord.reg2bin p (if e = p then p + 1 else e) 14 5 := by
   have ha := recordBin_agree r
   have hend := recordEnd_agree r
   rw [hp] at ha hend
   rw [he] at hend
-  have := Hts.Props.C16.bin_spec (unmapped r) (mateUnmapped r) p (r.cigar.map coordOp) e hend h1 h2
+  have := Hts.Props.C16.bin_spec (unmapped r) (mateUnmapped r) p (r.cigar.map coordOp) e hend h1 h2 h3
   rw [this] at ha
   exact (Option.some.inj ha).symm
 
